@@ -1,6 +1,8 @@
 CFG = {
-    "n_quick": 3000, "n_thorough": 300000,
-    "rule": "generated records of 0..12 typed fields (integers of every width 1..128 signed/unsigned in both byte orders through int!/uint! and the fixed-width uN!/iN!(le/be) words, f32/f64, raw bit-strings of any length, UTF-8 strings, byte lists, NUL-terminated byte strings; ~15 % records with one out-of-domain field), packed into a vector + >bitstr, parsed back with the matching read words, and emitted group by group for every single split position plus one random multi-split with output interception on; one PRNG seed; a case is non-trivial when the record has at least two fields; distinct = distinct request lines",
+    "extra_theorems": ["Xeh.LeafBridge.data_words_match"],
+    "extra_modules": ["XehModel.Proofs.LeafBridge"],
+    "n_quick": 3000, "n_thorough": 100000,
+    "rule": "exhaustive small scope first: every integer width 1..128 × signedness × byte order × start alignment 0..7 (one rotating boundary value per cell in the quick tier, ten in the thorough tier; fixed-width word forms for 8/16/32/64); then generated records of 0..12 typed fields (integers of every width 1..128 signed/unsigned in both byte orders through int!/uint! and the fixed-width uN!/iN!(le/be) words, f32/f64, raw bit-strings of any length, UTF-8 strings, byte lists, NUL-terminated byte strings; ~15 % records with one out-of-domain field), packed into a vector (35 % with a run of pieces wrapped into a nested vector) + >bitstr, parsed back with the matching read words, and emitted group by group for every single split position plus one random multi-split with output interception on; one PRNG seed; a case is non-trivial when the record has at least two fields; distinct = distinct request lines",
     "nontrivial": lambda op, imp: len(op.split(" /")[0].split()) >= 3,
     "trusted_base_extra": [
         "bit-strings are bit lists at this level (append/flatten at the buffer level is C04); number<->bits at the buffer level is C05; here from_int/to_uint are the list-level functions of Model/CursorBits.lean",
@@ -8,11 +10,12 @@ CFG = {
     ],
     "assumptions": [
         "pieces are collected into a vector through the Rust API (Xvec) instead of the `[ ]` words; every construction/parsing word runs through Xstate::eval",
-        "widths above 4096 bits are not generated (from_int allocates width/8 bytes up front)",
+        "int!/uint! are never given a width above 4096 bits (malformed widths stop at 300): Bitstr::from_int allocates width/8 bytes up front and a failed allocation aborts the process — a requested allocation size, excluded by C08's precondition (coordinator decision; `1 18446744073709551615 int!` is the witness)",
+        "a NUL-terminated field is inside the round-trip domain only where the rest of the record is a whole number of bytes: cstr/nulbytestr refuse (ToBytestrError) unless the whole remaining input is a multiple of 8 bits (RecOk in Props/C07.lean says the same); records violating this are generated and compared with the model but not claimed",
     ],
     "manifest": {
         "level": "proof",
-        "text": "Lean 4 theorems (Props/C07.lean) over the executable model of the construction words (uN!/iN!/int!/uint!/fN!/float!, >bitstr flattening, bitstr-append, emit/output/output-length): the packed record has length = sum of the field widths; parsing it with the matching read words returns every value reduced to its width, in order, and ends with remain = 0, for every field list including byte-order switches so that fields start at every bit alignment; with interception on, output is the concatenation and output-length the total for every split of the field list across emit calls. Tied to /repo by differential execution of pack + parse + emit programs and an oracle using Rust's own integer/float byte layouts.",
+        "text": "Lean 4 theorems (Props/C07.lean) over the executable model of the construction words (uN!/iN!/int!/uint!/fN!/float!, >bitstr flattening, bitstr-append, emit/output/output-length): the packed record has length = sum of the field widths; parsing it with the matching read words returns every value reduced to its width, in order, and ends with remain = 0 (pack_parse_inverse), for every field list including byte-order switches so that fields start at every bit alignment; with interception on, output is the concatenation and output-length the total for every split of the field list across emit calls. Tied to /repo by differential execution of pack + parse + emit programs and an oracle using Rust's own integer/float byte layouts.",
         "note": "Trusted: Lean kernel; axioms ⊆ {propext, Classical.choice, Quot.sound}; hand-written model validated by correspondence; f32 rounding defined by Model/SoftFloat.lean (validated against hardware on every run); bit-string buffers abstracted to bit lists (C04/C05 cover the buffer level).",
         "technique": "Lean 4 proof over executable model + differential correspondence with the Rust implementation",
     },
